@@ -1,0 +1,62 @@
+//go:build verif
+
+package client
+
+import (
+	"sync"
+
+	"github.com/nspcc-dev/neo-go/pkg/core/block"
+	"github.com/nspcc-dev/neo-go/pkg/core/state"
+	"github.com/nspcc-dev/neo-go/pkg/crypto/keys"
+	"github.com/nspcc-dev/neo-go/pkg/neorpc/result"
+	"github.com/nspcc-dev/neo-go/pkg/util"
+	"github.com/nspcc-dev/neo-go/pkg/wallet"
+	"go.uber.org/zap"
+)
+
+// VerifInterceptor receives the name of the intercepted [Client] method and its
+// arguments. If handled is true the method returns (res, err) without touching
+// the (absent) RPC connection.
+type VerifInterceptor func(method string, args ...any) (handled bool, res any, err error)
+
+var verifInterceptors sync.Map // *Client -> VerifInterceptor
+
+func (c *Client) verifIntercept(method string, args ...any) (bool, any, error) {
+	f, ok := verifInterceptors.Load(c)
+	if !ok {
+		return false, nil, nil
+	}
+	return f.(VerifInterceptor)(method, args...)
+}
+
+// VerifNewClient returns a [Client] without any RPC connection: every chain
+// call that is not handled by the interceptor fails with [ErrConnectionLost].
+// Notary support is switched on with the given contract hashes and alphabet source.
+func VerifNewClient(key *keys.PrivateKey, f VerifInterceptor, notaryHash, proxy util.Uint160, alphabet AlphabetKeys) *Client {
+	cfg := defaultConfig()
+	cfg.logger = zap.NewNop()
+	c := &Client{
+		cache:     newClientCache(),
+		logger:    cfg.logger,
+		acc:       wallet.NewAccountFromPrivateKey(key),
+		accAddr:   key.GetScriptHash(),
+		cfg:       *cfg,
+		closeChan: make(chan struct{}),
+		subs: subscriptions{
+			notifyChan:             make(chan *state.ContainedNotificationEvent),
+			headerChan:             make(chan *block.Header),
+			notaryChan:             make(chan *result.NotaryRequestEvent),
+			subscribedEvents:       make(map[util.Uint160]struct{}),
+			subscribedNotaryEvents: make(map[util.Uint160]struct{}),
+		},
+		notary: &notaryInfo{
+			txValidTime:    defaultNotaryValidTime,
+			roundTime:      defaultNotaryRoundTime,
+			alphabetSource: alphabet,
+			notary:         notaryHash,
+			proxy:          proxy,
+		},
+	}
+	verifInterceptors.Store(c, f)
+	return c
+}
